@@ -119,7 +119,9 @@ func genScenario(t *rapid.T) scenario {
 		Scheme: rapid.SampledFrom([]string{"http", "https"}).Draw(t, "scheme"),
 		// (the last one: characters a Host header may carry, which mean something in the headers heimdall writes for the upstream)
 		Host: rapid.SampledFrom([]string{"svc.example.com", "public.example.com", "svc.example.com", "public.example.com",
-			"svc.example.com;proto=https,for=6.6.6.6"}).Draw(t, "host"),
+			"svc.example.com;proto=https,for=6.6.6.6",
+			// (a port is part of the host as received, also the one which is the default of some scheme)
+			"svc.example.com:443", "svc.example.com:80", "public.example.com:8443"}).Draw(t, "host"),
 		Path:   rapid.SampledFrom([]string{"/public/x", "/public/y/z", "/other"}).Draw(t, "path"),
 		Entry:  rapid.SampledFrom([]vkit.Entry{vkit.EntryDecision, vkit.EntryProxy}).Draw(t, "entry"),
 		Query:  rapid.SampledFrom([]string{"", "", "own=1"}).Draw(t, "query"),
@@ -170,7 +172,7 @@ func genScenario(t *rapid.T) scenario {
 		case "X-Forwarded-Proto":
 			vals = []string{rapid.SampledFrom([]string{"https", "http"}).Draw(t, "v")}
 		case "X-Forwarded-Host":
-			vals = []string{rapid.SampledFrom([]string{"admin.example.com", "evil.example.com"}).Draw(t, "v")}
+			vals = []string{rapid.SampledFrom([]string{"admin.example.com", "evil.example.com", "admin.example.com:443", "admin.example.com:80"}).Draw(t, "v")}
 		case "X-Forwarded-Uri":
 			vals = []string{rapid.SampledFrom([]string{"/admin/secret?as=root", "/admin/x%20y?b=2&a=1", "/public/other?q=1", "/admin/secret", "/public/other",
 				// (a comma is an ordinary character of a path and of a query)
